@@ -266,6 +266,19 @@ impl FileReader for IOFileReader {
                 .to_owned()
         };
 
+        // Different spellings of a path (./a.s, ../dir/a.s) name the same file
+        let path = std::fs::canonicalize(&path)
+            .ok()
+            .and_then(|p| p.to_str().map(str::to_owned))
+            .unwrap_or(path);
+
+        // A file that is already part of the program cannot be included again:
+        // a file that includes itself (directly or through other files) would
+        // otherwise be read forever.
+        if self.files.values().any(|(read_path, _)| *read_path == path) {
+            return Err(FileReaderError::FileAlreadyRead(path));
+        }
+
         // open file and read it
         let file = match std::fs::read_to_string(path.clone()) {
             Ok(file) => file,
